@@ -285,15 +285,35 @@ func genForward(ctx *Ctx, prop string) {
 		// one request in six is first answered with a read timeout the policy retries on the same host:
 		// every copy of the request that reaches a backend must be the same bytes
 		retried := kind != "prepare" && r.Intn(6) == 0
+		var hold chan struct{}
 		if kind == "prepare" {
 			be.PrepareErr[hexOf(md5Of(msg.(*message.Prepare).Query))] = []fb.Outcome{{Kind: fb.RawReply, RawFlags: rflags, RawOpcode: ropcode, RawBody: rbody}}
 		} else if retried {
-			be.SetScript(tok, fb.Outcome{Kind: fb.ErrMsg, Msg: &message.ReadTimeout{ErrorMessage: "scripted", Consistency: primitive.ConsistencyLevelQuorum, Received: 2, BlockFor: 2, DataPresent: false}},
+			// ... and half of those are held at the backend while ANOTHER request of the same client connection is sent and
+			// answered, so that the copy that is sent again was kept across later traffic on its connection
+			if r.Intn(2) == 0 {
+				hold = make(chan struct{})
+			}
+			be.SetScript(tok, fb.Outcome{Kind: fb.ErrMsg, Hold: hold, Msg: &message.ReadTimeout{ErrorMessage: "scripted", Consistency: primitive.ConsistencyLevelQuorum, Received: 2, BlockFor: 2, DataPresent: false}},
 				fb.Outcome{Kind: fb.RawReply, RawFlags: rflags, RawOpcode: ropcode, RawBody: rbody})
 		} else {
 			be.SetScript(tok, fb.Outcome{Kind: fb.RawReply, RawFlags: rflags, RawOpcode: ropcode, RawBody: rbody})
 		}
 		_ = cl.SendRaw(sent)
+		if hold != nil {
+			p.stream = (p.stream+1)%30000 + 1
+			st2 := p.stream
+			filler := strings.Repeat("y", len(sent)+r.Intn(64))
+			_ = cl.Send(v, st2, &message.Query{Query: "SELECT v FROM ks.t WHERE k = 'tok:" + tok + "i' -- " + filler, Options: &message.QueryOptions{Consistency: primitive.ConsistencyLevelOne}})
+			for {
+				f, _ := cl.Next(5 * time.Second)
+				if f == nil || f.Stream == st2 {
+					break
+				}
+			}
+			close(hold)
+			ctx.Count("retried-after-another-request-on-the-same-client-connection")
+		}
 		got, _ := cl.Next(5 * time.Second)
 		// what the backend saw
 		var rec *fb.Rec
